@@ -104,7 +104,7 @@ def run(chk, tier, replay):
             st["rejected"] += 1
             ev = next(e for e in events if e["id"] == eid)
             ev = dict(ev, bytes=ev.get("bytes", ev.get("idx", [])))
-            chk.violation(E.trace_signature(c, v),
+            chk.violation(E.trace_signature(c, v, ev["bytes"]),
                           "the specification reader rejects carquet's %s output (%s; parse ended after %s of %d bytes): values %s" % (
                               c["kind"], v["why"], v["p"], len(ev["bytes"]), str({k: x for k, x in c.items() if k in ("bw", "vals", "L", "w", "sp", "shape", "strs", "items")})[:300]),
                           {"case": {k: x for k, x in c.items() if k not in ("pad", "fill")}, "carquet_bytes": ev["bytes"], "lines": E.roundtrip_lines(cid, c)})
